@@ -315,8 +315,69 @@ func c12Pair[V univers.Version[V], VR univers.VersionRange[V]](e univers.Ecosyst
 	vv.Reached()
 	vv.Assume(mavenConventional(a))
 	vv.Assume(mavenConventional(b))
-	vv.Assume(!vv.Known("KF-C12-maven-flat-tokens", orb(orb(c12Outside(a), c12Outside(b)), c12Mixed(a, b))))
+	vv.Assume(!vv.Known("KF-C12-maven-flat-tokens", c12Scope(a, b)))
 	vv.Assert(sign(va.Compare(vb)) == mavenCompare(a, b), "C12: order differs from Maven's ComparableVersion")
+}
+
+// c12Scope: the pairs whose Maven order depends on list nesting - a version with a number after '-'
+// or after a qualifier, or a qualified version against one with a different number of numeric
+// components - unless both versions have the same token structure (same sequence of digit
+// runs, letter runs and separators), where nesting is the same on both sides and the flat token
+// list gives Maven's answer. (inputs only)
+func c12Scope(a, b string) bool {
+	if c12Sig(a) == c12Sig(b) {
+		return false
+	}
+	return orb(c12Mixed(a, b), c12DotJoin(a, b))
+}
+
+// c12DotJoin: both versions have a qualifier followed by a number and exactly one of them joins
+// the two with '.' (1-rc.1 against 1-rc1 or 1-rc-1): '.' and '-' nest differently in Maven.
+func c12DotJoin(a, b string) bool {
+	ja, jb := qualJoin(a), qualJoin(b)
+	if ja == 0 || jb == 0 {
+		return false
+	}
+	return (ja == 3) != (jb == 3)
+}
+
+// qualJoin: 0 = no number after a qualifier, 1 = glued, 2 = joined by '-', 3 = joined by '.'.
+func qualJoin(s string) int {
+	for i := 0; i+1 < len(s); i++ {
+		if !isAlpha(s[i]) {
+			continue
+		}
+		n := s[i+1]
+		if isDig(n) {
+			return 1
+		}
+		if (n == '-' || n == '.') && i+2 < len(s) && isDig(s[i+2]) {
+			if n == '-' {
+				return 2
+			}
+			return 3
+		}
+	}
+	return 0
+}
+
+// c12Sig: digit runs -> 'd', letter runs -> 'a', separators as they are.
+func c12Sig(s string) string {
+	out := make([]byte, 0, len(s))
+	for i := 0; i < len(s); i++ {
+		c := s[i]
+		k := c
+		if isDig(c) {
+			k = 'd'
+		} else if isAlpha(c) {
+			k = 'a'
+		}
+		if (k == 'd' || k == 'a') && len(out) > 0 && out[len(out)-1] == k {
+			continue
+		}
+		out = append(out, k)
+	}
+	return string(out)
 }
 
 // c12Outside: shapes whose Maven order depends on list nesting, which go-univers' flat token
